@@ -272,6 +272,18 @@ def scenario(kind, choices, serial=None):
             cmds = [(["commit", "-q", "-m", "c-main"], repo, True),
                     (["checkpoint", "agent-v1", "--hook-input", ai_payload(w, wt, "S2", "b.txt")], wt, False)]
             probes = [(repo, "a.txt", "ai line of S1"), (wt, "b.txt", "ai line of S2")]
+        elif kind == "cherry-cherry-wt":
+            # two cherry-picks of agent commits at the same time, one in the main work tree and one in a linked work tree: each work tree
+            # keeps its own record of the operation in progress (rewrite log)
+            for br, f, sname in (("srcA", "a.txt", "S1"), ("srcB", "b.txt", "S2")):
+                w.git("checkout", "-q", "-b", br, "main", plain=True)
+                w.human_ckpt([f]); w.write_bytes(f, b"one\ntwo\nthree\nai line of %s\n" % sname.encode()); w.ai_ckpt(sname, [f])
+                w.git("add", "-A"); w.git("commit", "-q", "-m", "agent commit on " + br)
+            w.git("checkout", "-q", "main", plain=True)
+            wt = os.path.join(w.root, "wt2")
+            w.git("worktree", "add", "-q", "-b", "other", wt, "main", plain=True)
+            cmds = [(["cherry-pick", "srcA"], repo, True), (["cherry-pick", "srcB"], wt, True)]
+            probes = [(repo, "a.txt", "ai line of S1"), (wt, "b.txt", "ai line of S2")]
         if serial is not None:
             seq, opts = [("serial", list(serial))], []
             for i in serial:
@@ -445,7 +457,7 @@ def main(tier, seed, replay=None):
         rep.add_results([run_case(case)])
         return rep.finish(min_nontrivial=0)
     witnesses.replay_for(rep, "C11")
-    kinds = ["ckpt-ckpt-diff", "ckpt-ckpt-same", "ckpt-commit", "ckpt-commit-leftover", "commit-commit-wt", "ckpt-stash", "ckpt-amend", "ckpt-reset", "commit-ckpt-wt"] + (["commit-rebase-wt"] if tier == "thorough" else [])
+    kinds = ["ckpt-ckpt-diff", "ckpt-ckpt-same", "ckpt-commit", "ckpt-commit-leftover", "commit-commit-wt", "ckpt-stash", "ckpt-amend", "ckpt-reset", "commit-ckpt-wt", "cherry-cherry-wt"] + (["commit-rebase-wt"] if tier == "thorough" else [])
     if os.environ.get("VERIF_C11_KINDS"):
         kinds = os.environ["VERIF_C11_KINDS"].split(",")
     limit = 6 if tier == "quick" else 600
